@@ -983,7 +983,12 @@ type StructConverter struct {
 func (c *StructConverter) To(obj Object) (interface{}, error) {
 	switch obj := obj.(type) {
 	case *Proxy:
-		// Return the object wrapped by the proxy
+		// Return the object wrapped by the proxy, which must be of this
+		// converter's struct type (as a pointer or as a value)
+		wrapped := reflect.TypeOf(obj.obj)
+		if wrapped != c.typ && wrapped != reflect.PointerTo(c.typ) {
+			return nil, errz.TypeErrorf("type error: expected %s (%s given)", c.typ, wrapped)
+		}
 		if c.isValueType {
 			return reflect.ValueOf(obj.obj).Elem().Interface(), nil
 		}
